@@ -717,3 +717,26 @@ Proof.
   split; [exact Eok|]. destruct R as (Hi & _ & _ & Hk & Hv & _). rewrite Hk, Hv.
   apply (nth_kv kvs). exact Hi.
 Qed.
+
+(* ------------------------------------------------------------ no error / no panic on written blocks *)
+Fixpoint bi_run_final (c : comparer) (it : biter) (ops : list cop) : biter :=
+  match ops with
+  | [] => it
+  | o :: r => bi_run_final c (snd (bi_step c it o)) r
+  end.
+
+Theorem block_no_panic_wf c ri kvs :
+  comparer_ok c -> 1 <= ri -> lenN (block_build ri kvs) < 2 ^ 32 -> sorted c kvs ->
+  exists b, read_block (block_build ri kvs) = Ok b /\
+    forall ops, bi_err (bi_run_final c (new_block_iter c b None false) ops) = None.
+Proof.
+  intros Hc Hri Hsz Hs. exists (built ri kvs). split; [apply read_block_build; assumption|].
+  pose proof (build_layout ri kvs Hri Hsz) as lay. cbn [new_block_iter].
+  assert (G : forall ops it p, rep kvs (built ri kvs) (b_off ri kvs) (b_ris ri kvs) it p ->
+              bi_err (bi_run_final c it ops) = None).
+  { induction ops as [|o r IH]; intros it p R; cbn [bi_run_final].
+    - apply rep_slice_full in R. apply R.
+    - destruct (step_refines c Hc kvs _ _ _ lay Hs it p o R) as (ok & it' & E & R' & _). rewrite E. cbn [snd].
+      apply (IH it' _ R'). }
+  intros ops. apply (G ops _ CSOI). apply rep_unsliced.
+Qed.
